@@ -1,4 +1,4 @@
-SOURCE_COMMITS = []
+SOURCE_COMMITS = ["870ee9b fix: CylinderSegment J/M must not depend on the rest of the batch"]
 CHECKS = {
  "C09": dict(level="proof",
    text="All path arithmetic of move/rotate/setters/constructor is proved against an independent specification for all path lengths, input lengths and start values: the real code objects are symbolically executed over index-map arrays of symbolic length and every postcondition/safety/exceptional obligation is discharged by z3. A native small-scope sweep of the same contract is a labelled bounded stand-in.",
@@ -12,6 +12,10 @@ CHECKS = {
    text="Each BHJM_* wrapper (Cuboid, Cylinder, Sphere, CylinderSegment partial-angle and dispatcher, Tetrahedron, Triangle, Dipole, Circle, Polyline) is symbolically executed on one generic row for B,H,J,M with core field functions as uninterpreted row-wise stubs and symbolic mu_0; B=mu_0*H+J, J=mu_0*M, J in {0,polarization}, J=polarization strictly inside / 0 strictly outside, J=M=0 for currents/dipole/sheets are discharged by z3 for every compatible path combination, i.e. for every row of every batch. Magnet setters are checked against the exported constant and every field module's MU0 binding and near-mu_0 literals are audited. Known findings (cylinder edge, segment surface, setter constant) are proved on the complement of a recorded region.",
    note="Assumes: cores are row-wise (C06), reals for doubles, tetrahedron point_inside symmetric under the chirality swap, TriangularMesh wrapper only via C06 + stand-in. Native random/special-row identities are a labelled bounded stand-in.",
    technique="contract-based deductive verification: row-generic symbolic execution of the real wrappers + z3"),
+ "C06": dict(level="proof",
+   text="Non-interference of batch-global values: every BHJM wrapper is executed row-generically to path exhaustion and, for any two global situations (any()/all()/len of the batch) consistent with the same row, the row's B/H/J/M are proved equal (z3) - so a row's value cannot depend on what else is in the call at the wrapper level. The TriangularMesh grouping loop is cut with an inductive invariant. Level-2 element provenance (grouping/tiling/reshape, path tiling of shorter objects) is carried by a labelled bounded term-exact stand-in, vectorised==element-wise natively.",
+   note="Assumes cores row-wise where not reached (listed in evidence), elliptic routines row-wise (bounded numeric stand-in), reals for doubles.",
+   technique="contract-based deductive verification: row-generic symbolic execution + z3 (non-interference), loop invariant for the trimesh grouping loop"),
 }
 _NB = "stand-in / contracts not built yet in this session (see DESIGN.md); not claimed"
 NA = {
